@@ -282,3 +282,44 @@ def list_replacements(f: Func):
                     t.slice.lower is None and t.slice.upper is None and t.slice.step is None:
                 out.append((n, n.value, True))
     return out
+
+
+def shared_list(ctx, o):
+    """the child list object of a task is ONE list shared by the task and every children facade ever handed out: facades change
+    it in place (never rebind their `_list`), publish exactly that object, and the task never rebinds `__children`"""
+    prog = ctx.prog
+    g = prog.func('task.Task.children')
+    ok = any(match("_ChildrenList(self, self._Task__children, self._Task__set_children)", n) for n in ast.walk(g.node))
+    if ok:
+        o.site(g, g.node, "children getter hands out the raw list object and the publish callback")
+    else:
+        o.refute(g, g.node, 'children getter', "the children facade is not built on the task's own list object (a copy would never reach the task)")
+    cl = prog.cls('_ChildrenList')
+    for m in cl.methods.values():
+        if m.name == '__init__':
+            continue
+        for st, tgt, val in facts.attr_stores(m, '_list'):
+            if match("self._list", tgt):
+                o.refute(m, st, st, f"{m.name} rebinds the facade's list (`{src(st)[:50]}`): the task and every children list handed out earlier keep "
+                                    f"the old object and go stale; the shared list must be changed in place")
+        for c in facts.calls_named(m, '__setter'):
+            if match("self._ChildrenList__setter(self._list)", c):
+                o.site(m, c, f"{m.name} publishes the shared list itself")
+            else:
+                o.refute(m, c, c, f"{m.name} hands `{src(c.args[0]) if c.args else '?'}` to the task instead of the shared list object: lists handed "
+                                  f"out earlier go stale")
+    t = prog.cls('Task')
+    for name in ('children',):
+        sf = t.setters.get(name)
+        if sf is not None:
+            for st, tgt, val in facts.attr_stores(sf, '_Task__children'):
+                if match("self._Task__children", tgt):
+                    o.refute(sf, st, st, "the children setter rebinds the task's child list: facades handed out earlier go stale")
+    sc = prog.funcs.get('task.Task.__set_children')
+    if sc is not None:
+        sts = [x for x in facts.attr_stores(sc, '_Task__children')]
+        p = [x for x in sc.params if x != sc.self_name]
+        if all(isinstance(v, ast.Name) and p and v.id == p[0] for _, _, v in sts) or not sts:
+            o.site(sc, sc.node, "publish callback stores the object it is given")
+        else:
+            o.refute(sc, sc.node, '__set_children', "the publish callback stores a different list than the one it is given")
